@@ -58,7 +58,6 @@ Ltac tie_norm :=
        set_u_wstate set_u_wafter set_u_ring set_u_tail set_u_head set_u_count
        setu_state setu_index setu_position setu_cmd setu_var setu_type setu_wbuf setu_wstate
        setu_wafter setu_ring setu_tail setu_head setu_count
-       asz usz g_pos g_buf g_cmd g_var g_index g_bsz setg_pos setg_buf setg_var setg_index
        andb orb negb fst snd length].
 
 (* named constants and light model helpers (setter chains, at most one match): unfolded so that
@@ -76,7 +75,8 @@ Ltac tie_unfold_light :=
              is_busy is_hold hold_exit process_hold_state process_io_write_wait
              unsolicited_process_io_write_wait start_print_cmd_list cmd_list_next_cmd
              start_flush_after_ok start_flush_after set_loop_state cmd_of cmd_at
-             ring_empty ring_full].
+             ring_empty ring_full
+             asz usz g_pos g_buf g_cmd g_var g_index g_bsz setg_pos setg_buf setg_var setg_index].
 
 (* the scrutinee on which the evaluation of t is stuck *)
 Ltac tie_stuck t :=
